@@ -182,7 +182,7 @@ static Test perm_marginals(bool qr, size_t n, ull N) {
 			size_t R = draw_secret(qr, false, n, pi); S.checks++;
 			if (!bijection(pi, n, seen) || R != 0) { range_violation(t.fn + "/not-a-bijection", "generated stack secret is not a bijection on 0..n-1 (or reports an offset)", J().kv("n", (ll)n).kv("R", (ll)R).raw("pi", vec_json(pi)).str()); continue; }
 			for (size_t i = 0; i < n; i++) S.tables[0].obs[i * n + pi[i]]++;
-			S.tables[0].N++;
+			S.tables[0].N += n;       // n observations (one per row) per permutation: expected count per cell = draws/n
 			for (size_t k = 0; k < pos.size(); k++) {
 				size_t a = pi[pos[k]], b = pi[pos[k] + 1];
 				S.tables[1 + k].obs[a * (n - 1) + (b > a ? b - 1 : b)]++; S.tables[1 + k].N++;
@@ -339,6 +339,9 @@ static std::vector<Test> catalogue(bool real, bool quick) {
 			                {"2^1+1", 1, 1, 1}, {"2^7+1", 1, 7, 1}, {"2^8+1", 1, 8, 1}, {"2^15+1", 1, 15, 1}, {"2^16+1", 1, 16, 1}, {"2^63+1", 1, 63, 1}, {"2^64+1", 1, 64, 1}, {"2^127+1", 1, 127, 1}, {"2^1024+1", 1, 1024, 1},
 			                {"2^2-1", 1, 2, -1}, {"2^7-1", 1, 7, -1}, {"2^8-1", 1, 8, -1}, {"2^16-1", 1, 16, -1}, {"2^64-1", 1, 64, -1}, {"2^128-1", 1, 128, -1}, {"2^1023-1", 1, 1023, -1}};
 			for (const M &m : ms) {
+				// tmcg_mpz_ssrandomm opens /proc/sys/kernel/random/entropy_avail on every call (~10 us): the
+				// 50 000-cell moduli (millions of draws) are sampled through the s and w entry points only
+				if (lv == 1 && m.k >= 14 && m.k <= 16) continue;
 				ull cells = (m.k <= 16) ? ((ull)m.mul << m.k) + 2 : 16;
 				T.push_back(randomm(lv, m.e, m_expr(m.mul, m.k, m.add), std::max<ull>(100000, 60ULL * cells) * g));
 			}
@@ -349,9 +352,18 @@ static std::vector<Test> catalogue(bool real, bool quick) {
 			T.push_back(random_ui(lv, 200000 * g));
 		}
 	} else {
-		// real libgcrypt RNG, all three quality levels, 2e4 draws per test (coarse tables)
-		ull N = 20000;
-		for (int lv = 0; lv < 3; lv++) {
+		// real libgcrypt RNG, all three quality levels.  GCRY_VERY_STRONG_RANDOM costs ~4 ms per call with
+		// libgcrypt 1.10 (CPU bound, not blocking): 2 000 draws per test there (9 tests = 1.8e4 draws; thorough:
+		// 2e4 per test), 2e4 draws per test at the other two levels.  The very-strong tests come first so
+		// that they land on different shards.
+		ull N = 20000, NSS = quick ? 2000 : 20000;
+		for (unsigned long m : {2UL, 3UL, 7UL}) T.push_back(random_mod(1, m, std::to_string(m), NSS));
+		T.push_back(random_mod(1, 3UL << 62, "3*2^62", NSS));
+		T.push_back(randomm(1, "3*2^2", m_expr(3, 2, 0), NSS));
+		T.push_back(randomm(1, "3*2^126", m_expr(3, 126, 0), NSS));
+		T.push_back(randomb(1, 8, NSS)); T.push_back(randomb(1, 64, NSS));
+		T.push_back(random_ui(1, NSS));
+		for (int lv = 0; lv < 3; lv += 2) {
 			for (unsigned long m : {2UL, 3UL, 7UL, 256UL, 257UL}) T.push_back(random_mod(lv, m, std::to_string(m), N));
 			T.push_back(random_mod(lv, 3UL << 62, "3*2^62", N));
 			T.push_back(randomm(lv, "3*2^6", m_expr(3, 6, 0), N));
@@ -361,11 +373,12 @@ static std::vector<Test> catalogue(bool real, bool quick) {
 			T.push_back(randomb(lv, 8, N)); T.push_back(randomb(lv, 64, N)); T.push_back(randomb(lv, 160, N));
 			T.push_back(random_ui(lv, N));
 		}
-		// the shuffle draws at GCRY_STRONG_RANDOM
+		// the shuffle draws (GCRY_STRONG_RANDOM inside the library)
 		for (size_t n : {3, 4, 5}) T.push_back(perm_full(false, n, N));
 		T.push_back(perm_full(true, 3, N));
-		T.push_back(perm_marginals(false, 8, N));
-		for (size_t n : {2, 5, 52}) T.push_back(rotation(false, n, N));
+		T.push_back(perm_marginals(false, 8, N / 2));
+		for (size_t n : {2, 5}) T.push_back(rotation(false, n, N));
+		T.push_back(rotation(false, 52, N / 5));
 	}
 	return T;
 }
@@ -390,10 +403,12 @@ int main(int argc, char **argv) {
 		double t0 = now_s();
 		if (real) {
 			// never hang on a starving entropy source: time a probe of 200 draws first and shrink the sample
-			// so that the case stays below ~60 s (the count is reported; floors make a starved run inconclusive)
+			// so that the case stays below ~40 s (thorough: 240 s) (the count is reported; floors make a starved run inconclusive)
 			Sample probe; g_real_rng = true; tl_rng = nullptr;
-			double p0 = now_s(); t.run(probe, 200); double per = (now_s() - p0) / 200.0;
-			if (per * N > 60.0) { N = std::max<ull>(2000, (ull)(60.0 / per)); count("real_samples_reduced"); }
+			t.run(probe, 20);                                  // warm-up: lazy set-up (group, prime), RNG seeding
+			Sample probe2; double p0 = now_s(); t.run(probe2, 200); double per = (now_s() - p0) / 200.0;
+			double cap = ctx.quick() ? 40.0 : 240.0;
+			if (per * N > cap) { N = std::max<ull>(1000, (ull)(cap / per)); count("real_samples_reduced"); }
 		}
 		tl_rng = &lane1; g_real_rng = real;
 		t.run(S1, N);
